@@ -1377,7 +1377,22 @@ func (c *FuncCtx) applyContract(st *State, con *Contract, sig *types.Signature, 
 			}
 			saved2 := st.bound
 			st.bound = saved
-			c.assign(st, c.curCallArgs[pos], nv)
+			target := ast.Unparen(c.curCallArgs[pos])
+			for {
+				// a conversion T(x) of a slice variable shares x's elements
+				ce, ok := target.(*ast.CallExpr)
+				if !ok || len(ce.Args) != 1 {
+					break
+				}
+				if tv, ok := c.eng.info.Types[ce.Fun]; !ok || !tv.IsType() {
+					break
+				}
+				target = ast.Unparen(ce.Args[0])
+				if tt := c.eng.info.TypeOf(target); tt != nil {
+					nv = &Val{T: tt, S: nv.S, Sort: nv.Sort}
+				}
+			}
+			c.assign(st, target, nv)
 			st.bound = saved2
 			st.bound["$oldparam:"+pname] = pre
 			st.bound[pname] = nv
